@@ -233,11 +233,13 @@ add(Contract(
         'PacketError': ["isbytes(raw)", "not silent", "exc.was_error_found_in_unpacking_phase == True", "StackWF(exc)"],
     },
     known={'no OtherException* escapes': dict(id='K12a', case="not silent")},
-    ghost_init={'g_parsed': 'False', 'g_pkt': 'None'}, ghost_kinds={'g_parsed': 'bool', 'g_pkt': 'dyn'},
+    ghost_init={'g_parsed': 'False', 'g_pkt': 'None', 'g_raw0': 'raw', 'g_off0': 'offset'},
+    ghost_kinds={'g_parsed': 'bool', 'g_pkt': 'dyn', 'g_raw0': 'dyn', 'g_off0': 'int'},
     call_effects={'Packet.unpack_impl': {'g_parsed': 'result >= 0', 'g_pkt': 'arg_self'}},
     # the whole input and the caller's offset are handed on as they are (positions in error reports and the offsets
     # callbacks see are positions in the caller's buffer)
-    call_asserts={'Packet.unpack_impl': ["arg_raw == bytesval(raw) and arg_offset == offset"]},
+    # (g_raw0 / g_off0: the arguments as they were on entry)
+    call_asserts={'Packet.unpack_impl': ["arg_raw == bytesval(g_raw0) and arg_offset == g_off0"]},
     modifies=[], allocates=True, returns='dyn'))
 
 add(Contract(
